@@ -121,6 +121,8 @@ type verifC18 struct {
 	stackBS  []asserts.Backstore // own backstores of the stacked databases
 	stacked  []*asserts.Database
 	faults   bool
+	forceKey *verifKey // when set genAssertion signs with this key for its owner
+	forceAll bool      // when set the next delivery goes to every database
 	owner    map[string]string       // key label -> account id
 	akLatest map[string]*verifSigned // key label -> latest account-key signed for it
 	signedTo map[string]int          // identity -> highest revision ever signed
@@ -243,6 +245,8 @@ func verifRunC18(c *verifsim.Ctx) {
 	for _, p := range verifProbesC18 {
 		c.Add(p, 0) // so that a probe that is never reached shows up as 0
 	}
+	stage := "running"
+	defer verifRecover(c, &stage)
 	keys := verifKeys()
 	w := &verifC18{c: c, keys: keys, led: verifNewLedger(),
 		owner: map[string]string{"root": "canonical", "store": "canonical", "trusted2": "canonical",
@@ -376,7 +380,13 @@ func (w *verifC18) genAssertion() *verifSigned {
 		authority = "canonical"
 	}
 	var signer *verifKey
-	if c.Draw("signer-right", 4) != 3 {
+	if w.forceKey != nil {
+		signer = w.forceKey
+		authority = w.owner[signer.label]
+		if typ == 3 && authority != "canonical" {
+			typ = 0
+		}
+	} else if c.Draw("signer-right", 4) != 3 {
 		own := w.keysOf(authority)
 		signer = w.keys[own[c.Draw("own-key", len(own))]]
 	} else {
@@ -474,7 +484,7 @@ func (w *verifC18) nextRev(id string) int {
 
 func (w *verifC18) reissueKey() {
 	c := w.c
-	lbl := []string{"dev1a", "store", "dev1b", "dev2", "stray", "spare"}[c.Draw("reissue", 6)]
+	lbl := []string{"dev1a", "dev1b", "store", "spare", "dev2", "stray"}[c.Draw("reissue", 6)]
 	prev := w.akLatest[lbl]
 	since, until := prev.akSince, prev.akUntil
 	switch c.Draw("reissue-how", 4) {
@@ -494,12 +504,28 @@ func (w *verifC18) reissueKey() {
 		since, until = w.drawWindow("re-" + lbl)
 	}
 	cons := prev.akCons
-	if c.Chance("re-cons", 1, 4) {
-		cons = verifConsMenu[c.Draw("cons:"+lbl, len(verifConsMenu))]
+	if c.Chance("re-cons", 1, 3) {
+		if len(prev.akCons) > 0 && c.Chance("drop-cons", 1, 2) {
+			// back to an unconstrained key: the new revision has a LOWER
+			// format than the one it supersedes
+			cons = nil
+			c.Count("probe:account-key-reissued-in-a-lower-format")
+		} else {
+			cons = verifConsMenu[c.Draw("cons:"+lbl, len(verifConsMenu))]
+		}
 	}
 	e := w.signAccountKey(w.keys[lbl], w.keys["root"], since, until, cons, w.signedTo[prev.id]+1)
 	w.fault("account-key-reissued")
 	w.deliver(e, "reissue")
+	if !w.stop() && c.Chance("use-reissued-key", 1, 2) {
+		// and straight away something signed with that key
+		w.forceKey = w.keys[lbl]
+		x := w.genAssertion()
+		w.forceKey = nil
+		w.forceAll = true // to every database, so that base and stacked ones look the key up in turn
+		w.deliver(x, "new")
+		w.forceAll = false
+	}
 }
 
 func (w *verifC18) boundaries() []time.Time {
@@ -819,6 +845,9 @@ func (w *verifC18) pickTargets(why string) []verifTarget {
 		return base
 	}
 	scope := c.Draw("scope", 4)
+	if w.forceAll {
+		scope = []int{0, 3}[c.Draw("scope-order", 2)]
+	}
 	if why == "reissue" && scope == 3 {
 		scope = 1
 	}
@@ -1093,4 +1122,4 @@ func (w *verifC18) findStored() {
 }
 
 
-var verifProbesC18 = []string{"probe:accepted-exactly-at-since", "probe:accepted-under-constraints", "probe:account-key-revision-changed-window", "probe:altered-rejected", "probe:checked-exactly-at-until", "probe:clock-lands-exactly-on-boundary", "probe:find-after-deliveries", "probe:invalid-rejected", "probe:reframed-signature-accepted", "probe:same-assertion-accepted-then-rejected", "probe:same-assertion-rejected-then-accepted", "probe:timestamp-exactly-at-until", "probe:valid-accepted"}
+var verifProbesC18 = []string{"probe:account-key-reissued-in-a-lower-format", "probe:accepted-exactly-at-since", "probe:accepted-under-constraints", "probe:account-key-revision-changed-window", "probe:altered-rejected", "probe:checked-exactly-at-until", "probe:clock-lands-exactly-on-boundary", "probe:find-after-deliveries", "probe:invalid-rejected", "probe:reframed-signature-accepted", "probe:same-assertion-accepted-then-rejected", "probe:same-assertion-rejected-then-accepted", "probe:timestamp-exactly-at-until", "probe:valid-accepted"}
